@@ -634,7 +634,7 @@ def strat_tree(tier):
 
 
 def execute_tree(desc, ctx):
-    from srctools.bsp import VisLeaf, VisTree, VisLeafFlags, BrushContents
+    from srctools.bsp import Brush, VisLeaf, VisTree, VisLeafFlags, BrushContents
     import attrs
     with Case(desc, ctx, ['NODES', 'LEAFS', 'LEAFMINDISTTOWATER']) as c:
         bsp = c.bsp
@@ -642,6 +642,10 @@ def execute_tree(desc, ctx):
         faces = list(bsp.faces)
         brushes = list(bsp.brushes)
         new_faces = [attrs.evolve(faces[k % len(faces)], lightmap_size=(100 + k, 7)) for k in range(desc['new_faces'])] if faces else []
+        if brushes and desc['new_faces']:
+            # a brush that is not in bsp.brushes yet (the leaf writer has to insert it), sharing its sides with an old one
+            brushes.append(Brush(BrushContents(0x8001), list(brushes[0].sides)))
+            ctx.label('new_brush')
         use_float = c.chaos and desc['float_bounds']
         if use_float:
             ctx.label('float_bounds')
@@ -692,13 +696,13 @@ def execute_tree(desc, ctx):
         if len(listed_leafs) < len(all_leafs):
             ctx.label('unlisted_leaf')
         ctx.nontrivial(len(nodes) >= 2)
-        want = G.canon([listed_leafs, listed_nodes], by_value=('Face', 'Primitive'))
+        want = G.canon([listed_leafs, listed_nodes], by_value=('Face', 'Primitive', 'BrushSide'))
         n_leafs, n_nodes = len(listed_leafs), len(listed_nodes)     # the writer appends unlisted children to these lists
         bsp.visleafs = listed_leafs
         bsp.nodes = listed_nodes
         b2 = c.reread()
         got = [list(b2.visleafs)[:n_leafs], list(b2.nodes)[:n_nodes]]
-        c.expect_equal('roundtrip:tree', want, G.canon(got, by_value=('Face', 'Primitive')), float_bounds=use_float)
+        c.expect_equal('roundtrip:tree', want, G.canon(got, by_value=('Face', 'Primitive', 'BrushSide')), float_bounds=use_float)
 
 
 # ----------------------------------------------------------------------------------------------------------------
@@ -1316,7 +1320,7 @@ SUBCHECKS = [
     S('textures', execute_textures, strat_textures, 300, 6000, must=('duplicate_name',)),
     S('texinfo', execute_texinfo, strat_texinfo, 400, 8000, must=('shared_texdata',)),
     S('tree', execute_tree, strat_tree, 600, 14000, must=('node_faces:slice', 'node_faces:tail', 'unlisted_node',
-                                                          'unlisted_leaf', 'float_bounds')),
+                                                          'unlisted_leaf', 'float_bounds', 'new_brush')),
     S('water', execute_water, strat_water, 300, 6000),
     S('visibility', execute_visibility, strat_visibility, 200, 3000, must=('vis_none', 'vis_long_rows', 'vis_short_rows')),
     S('bmodels', execute_bmodels, strat_bmodels, 400, 10000, must=('shared_model', 'phys_solids', 'model_faces:tail')),
